@@ -473,6 +473,12 @@ class Interp(object):
 
     def st_Assign(self, st, path):
         out = []
+        # `t = t + e` / `t = t - e` on a field, item or global is the same read-modify-write as `t += e`
+        if len(st.targets) == 1 and isinstance(st.targets[0], (ast.Attribute, ast.Subscript, ast.Name)) and isinstance(st.value, ast.BinOp) and isinstance(st.value.op, (ast.Add, ast.Sub)):
+            t0 = st.targets[0]
+            if not isinstance(t0, ast.Name) or ("@global:" + t0.id) in path.env:
+                if ast.dump(_as_load(t0)) == ast.dump(st.value.left):
+                    return self._aug(st, t0, st.value.op, st.value.right, path)
         for v, p in self.eval(st.value, path):
             if p.status != "ok":
                 out.append(p)
@@ -498,22 +504,25 @@ class Interp(object):
         return out
 
     def st_AugAssign(self, st, path):
+        return self._aug(st, st.target, st.op, st.value, path)
+
+    def _aug(self, st, target, opnode, value, path):
         out = []
-        load = ast.copy_location(_as_load(st.target), st.target)
+        load = ast.copy_location(_as_load(target), target)
         for cur, p in self.eval(load, path):
             if p.status != "ok":
                 out.append(p)
                 continue
-            for v, q in self.eval(st.value, p):
+            for v, q in self.eval(value, p):
                 if q.status != "ok":
                     out.append(q)
                     continue
-                op = _opname(st.op)
+                op = _opname(opnode)
                 nv = self.binop(op, cur, v)
                 # `x += -1` is a decrement: the recorded direction is the effective one
                 if op in ("+", "-") and isinstance(v, tuple) and v[0] == "const" and isinstance(v[1], (int, float)) and not isinstance(v[1], bool) and v[1] < 0:
                     op = "-" if op == "+" else "+"
-                out.extend(self.assign(st.target, nv, q, st, aug=op))
+                out.extend(self.assign(target, nv, q, st, aug=op))
         return out
 
     def assign(self, target, v, path, st, aug=None):
